@@ -211,6 +211,41 @@ fn min_ctr_cases(rng: &mut Rng, cases: &mut u64) -> Option<Vec<(String, String)>
     None
 }
 
+/// child mode: run the command line given in `args` in this process (its stdin is the parent's pipe)
+pub fn stdin_cli_child(args: &[String]) {
+    let r = run_cli(args);
+    std::process::exit(if r.is_ok() { 0 } else { 3 });
+}
+
+/// `-i -` (standard input) through the command line gives the rows the library / spec gives for the same records
+fn stdin_cases(rng: &mut Rng, cases: &mut u64) -> Option<Vec<(String, String)>> {
+    use std::io::Write;
+    let recs = test_recs(rng, 5);
+    let mut fasta: Vec<u8> = Vec::new();
+    for (i, r) in recs.iter().enumerate() { fasta.extend_from_slice(format!(">r{}\n", i).as_bytes()); fasta.extend_from_slice(r); fasta.push(b'\n'); }
+    for counts in [false, true] {
+        let sc = Scratch::new("clistdin");
+        let out = sc.path("out.txt");
+        let mut a = sv(&["comp", "oligo", "-i", "-", "-o", &out, "-k", "3", "-t", "2"]);
+        if counts { a.push("-c".into()); }
+        *cases += 1;
+        let exe = match std::env::current_exe() { Ok(e) => e, Err(_) => return None };
+        let mut full = vec!["stdin-cli".to_string()]; full.extend(a.iter().cloned());
+        let mut child = match std::process::Command::new(exe).args(&full)
+            .stdin(std::process::Stdio::piped()).stdout(std::process::Stdio::null()).stderr(std::process::Stdio::null()).spawn() { Ok(c) => c, Err(_) => return None };
+        if let Some(mut si) = child.stdin.take() { let _ = si.write_all(&fasta); }
+        let st = match child.wait() { Ok(s) => s, Err(_) => return None };
+        if !st.success() { return wit(&a, format!("records on standard input: the run failed ({:?}); the library reads them", st.code())); }
+        let text = std::fs::read_to_string(&out).unwrap_or_default();
+        let lines: Vec<&str> = text.split('\n').collect();
+        if lines.len() != recs.len() + 1 { return wit(&a, format!("records on standard input: {} rows for {} records", lines.len().saturating_sub(1), recs.len())); }
+        for (i, r) in recs.iter().enumerate() {
+            if let Err(e) = crate::p_rows::row_matches(lines[i], r, 3, !counts, " ") { return wit(&a, format!("records on standard input, row {}: {}", i, e)); }
+        }
+    }
+    None
+}
+
 pub fn c15(o: &Opts) -> Outcome {
     let mut cases = 0u64;
     if let Some(inp) = &o.input {
@@ -218,7 +253,7 @@ pub fn c15(o: &Opts) -> Outcome {
         let _ = inp;
     }
     let mut rng = Rng(o.seed.wrapping_mul(0x9E3779B97F4A7C15) | 1);
-    for f in [oligo_cases, cgr_cases, cov_cases, min_ctr_cases] {
+    for f in [oligo_cases, cgr_cases, cov_cases, min_ctr_cases, stdin_cases] {
         if let Some(w) = f(&mut rng, &mut cases) { return Outcome { cases, witness: Some(w) }; }
     }
     Outcome { cases, witness: None }
